@@ -920,3 +920,203 @@ Proof.
   - intros [rows' Hd]. destruct (run_sheet pol rows c) as [s|e] eqn:H; [exists s; reflexivity|].
     apply desugar_error_iff in H. rewrite H in Hd. discriminate.
 Qed.
+
+(* ------------------------------------------------------------------ 5. the shape of the desugaring (equations of ds, any fuel) *)
+Section Laws.
+Variable pol : undefined_policy.
+Notation DS := (ds pol).
+
+(* (a) a row whose include_if is false disappears; its id and text cells do not occur in the law *)
+Theorem ds_excluded_row f r rest c bt :
+  eval_inc pol c (rw_inc r) = ROk false -> rw_kind r = KPlain ->
+  DS (S f) (r :: rest) c bt false = DS f rest c bt false.
+Proof.
+  intros Hi Hk. cbn [ds]. unfold instantiate. rewrite Hi. cbn [i_kind i_inc negb orb]. rewrite Hk.
+  rewrite end_of_block_plain. reflexivity.
+Qed.
+
+(* (b) a begin_for / begin_block whose include_if is false disappears with everything up to its
+   terminator: what follows is found by reading the rows with omit (c) *)
+Theorem ds_excluded_block f r rest c bt :
+  eval_inc pol c (rw_inc r) = ROk false -> (rw_kind r = KBeginFor \/ rw_kind r = KBeginBlock) ->
+  DS (S f) (r :: rest) c bt false
+  = match DS f rest c (match rw_kind r with KBeginFor => BFor | _ => BBlock end) true with
+    | ROk (_, rest2) => DS f rest2 c bt false
+    | RErr e => RErr e
+    end.
+Proof.
+  intros Hi Hk. cbn [ds]. unfold instantiate. rewrite Hi. cbn [i_kind i_inc negb orb].
+  destruct Hk as [Hk|Hk]; rewrite Hk; [rewrite end_of_block_for|rewrite end_of_block_block]; reflexivity.
+Qed.
+
+(* (c) reading with omit produces nothing and looks at nothing but the row types: any other rows
+   of the same types, under any other context, are skipped in the same way *)
+Definition same_skip (a b : res (list raw * list raw)) : Prop :=
+  match a, b with
+  | ROk (o, rem), ROk (o', rem') => o = [] /\ o' = [] /\ map rw_kind rem = map rw_kind rem'
+  | RErr e, RErr e' => e = e'
+  | _, _ => False
+  end.
+
+Theorem ds_omit_types_only : forall f rest rest' c c' bt,
+  map rw_kind rest = map rw_kind rest' ->
+  same_skip (DS f rest c bt true) (DS f rest' c' bt true).
+Proof.
+  induction f as [|f IH]; intros rest rest' c c' bt Hm; [reflexivity|].
+  destruct rest as [|r rest]; destruct rest' as [|r' rest']; try discriminate.
+  - cbn [ds]. destruct (end_of_block bt None) as [b|e]; cbn; auto.
+  - cbn [map] in Hm. inversion Hm as [[Hk Hm']]. cbn [ds i_kind i_inc orb]. rewrite <- Hk.
+    destruct (end_of_block bt (Some (rw_kind r))) as [[|]|e]; [cbn; auto| |reflexivity].
+    assert (Hnest : forall b, same_skip
+              match DS f rest c b true with ROk (_, rest2) => DS f rest2 c bt true | RErr e => RErr e end
+              match DS f rest' c' b true with ROk (_, rest2) => DS f rest2 c' bt true | RErr e => RErr e end).
+    { intros b. pose proof (IH rest rest' c c' b Hm') as H1. unfold same_skip in H1.
+      destruct (DS f rest c b true) as [[o rem]|e]; destruct (DS f rest' c' b true) as [[o' rem']|e']; try contradiction.
+      - destruct H1 as [_ [_ Hr]]. exact (IH _ _ _ _ _ Hr).
+      - subst e'. reflexivity. }
+    destruct (rw_kind r); [apply Hnest|apply IH; exact Hm'|apply Hnest|apply IH; exact Hm'|apply IH; exact Hm'].
+Qed.
+
+(* (d) a loop: begin_block (rendered head) . the body once per element, in order, desugared in the
+   context extended with the element (and its index) . end_block . the rest of the enclosing block,
+   desugared in the context the loop was reached with *)
+Lemma ds_iter_bodies (body : ctx -> res (list raw * list raw)) c x idx rem :
+  forall elems n bodies rem0,
+    length bodies = length elems ->
+    (forall k e, nth_error elems k = Some e ->
+       exists b, nth_error bodies k = Some b /\ body (bind_loop c x idx e (n + k)) = ROk (b, rem)) ->
+    ds_iter body c x idx elems n rem0 = ROk (concat bodies, match elems with [] => rem0 | _ => rem end).
+Proof.
+  induction elems as [|e more IH]; intros n bodies rem0 Hlen Hb; destruct bodies as [|b bs]; try discriminate; [reflexivity|].
+  cbn [ds_iter concat]. destruct (Hb 0 e eq_refl) as [b0 [Hb0 He]]. cbn in Hb0. inversion Hb0; subst b0.
+  rewrite Nat.add_0_r in He. rewrite He.
+  rewrite (IH (S n) bs rem).
+  - destruct more; reflexivity.
+  - cbn in Hlen. lia.
+  - intros k e' Hk. destruct (Hb (S k) e' Hk) as [b' [Hb' He']]. exists b'. split; [exact Hb'|].
+    replace (S n + k) with (n + S k) by lia. exact He'.
+Qed.
+
+Theorem ds_loop f r rest c bt row x more :
+  instantiate pol c r = ROk row -> i_kind row = KBeginFor -> i_inc row = true ->
+  i_vars row = x :: more -> x <> [] -> i_iter row <> [] ->
+  forall bodies rem out rem',
+    length bodies = length (i_iter row) ->
+    (forall k e, nth_error (i_iter row) k = Some e ->
+       exists b, nth_error bodies k = Some b
+                 /\ DS f rest (bind_loop c x (idx_of more) e k) BFor false = ROk (b, rem)) ->
+    DS f rem c bt false = ROk (out, rem') ->
+    DS (S f) (r :: rest) c bt false
+    = ROk (lit_row KBeginBlock (i_id row) (i_text row) :: concat bodies ++ end_row :: out, rem').
+Proof.
+  intros Hi Hk Hinc Hv Hx Hne bodies rem out rem' Hlen Hb Hout.
+  cbn [ds]. rewrite Hi, Hk, end_of_block_for, Hinc. cbn [negb orb]. rewrite Hv.
+  destruct x as [|x0 xr]; [contradiction Hx; reflexivity|].
+  rewrite (ds_iter_bodies (fun c' => DS f rest c' BFor false) c (x0 :: xr) (idx_of more) rem (i_iter row) 0 bodies rest Hlen Hb).
+  destruct (i_iter row) as [|e0 el]; [contradiction Hne; reflexivity|].
+  rewrite Hout. reflexivity.
+Qed.
+
+(* a loop over nothing: an empty block; its body is found by reading with omit (c) *)
+Theorem ds_loop_empty f r rest c bt row x more o rem out rem' :
+  instantiate pol c r = ROk row -> i_kind row = KBeginFor -> i_inc row = true ->
+  i_vars row = x :: more -> x <> [] -> i_iter row = [] ->
+  DS f rest c BFor true = ROk (o, rem) ->
+  DS f rem c bt false = ROk (out, rem') ->
+  DS (S f) (r :: rest) c bt false
+  = ROk (lit_row KBeginBlock (i_id row) (i_text row) :: end_row :: out, rem').
+Proof.
+  intros Hi Hk Hinc Hv Hx Hit Ho Hout.
+  cbn [ds]. rewrite Hi, Hk, end_of_block_for, Hinc. cbn [negb orb]. rewrite Hv.
+  destruct x as [|x0 xr]; [contradiction Hx; reflexivity|].
+  rewrite Hit. cbn [ds_iter]. rewrite Ho, Hout. reflexivity.
+Qed.
+
+(* (e) nesting composes: a loop whose body starts with a loop.  The inner loop is unrolled inside every
+   copy of the outer body, under the context extended first with the outer, then with the inner
+   variable (so an inner variable of the same name shadows the outer one, and only inside) *)
+Theorem ds_nested_loops f r1 r2 rest c bt row1 x more y more2 :
+  instantiate pol c r1 = ROk row1 -> i_kind row1 = KBeginFor -> i_inc row1 = true ->
+  i_vars row1 = x :: more -> x <> [] -> i_iter row1 <> [] -> y <> [] ->
+  forall (heads : list irow) (inner : list (list (list raw))) (tails : list (list raw)) rem2 rem out rem',
+    length heads = length (i_iter row1) -> length inner = length (i_iter row1) -> length tails = length (i_iter row1) ->
+    (forall k e, nth_error (i_iter row1) k = Some e ->
+       let ck := bind_loop c x (idx_of more) e k in
+       exists row2 Bk tail,
+         nth_error heads k = Some row2 /\ nth_error inner k = Some Bk /\ nth_error tails k = Some tail
+         /\ instantiate pol ck r2 = ROk row2 /\ i_kind row2 = KBeginFor /\ i_inc row2 = true
+         /\ i_vars row2 = y :: more2 /\ i_iter row2 <> [] /\ length Bk = length (i_iter row2)
+         /\ (forall j e', nth_error (i_iter row2) j = Some e' ->
+               exists b, nth_error Bk j = Some b
+                         /\ DS f rest (bind_loop ck y (idx_of more2) e' j) BFor false = ROk (b, rem2))
+         /\ DS f rem2 ck BFor false = ROk (tail, rem)) ->
+    DS (S f) rem c bt false = ROk (out, rem') ->
+    DS (S (S f)) (r1 :: r2 :: rest) c bt false
+    = ROk (lit_row KBeginBlock (i_id row1) (i_text row1)
+           :: concat (map (fun hbt : irow * (list (list raw) * list raw) =>
+                             lit_row KBeginBlock (i_id (fst hbt)) (i_text (fst hbt))
+                             :: concat (fst (snd hbt)) ++ end_row :: snd (snd hbt))
+                          (combine heads (combine inner tails)))
+           ++ end_row :: out, rem').
+Proof.
+  intros Hi Hk Hinc Hv Hx Hne Hy heads inner tails rem2 rem out rem' Lh Li Lt Hall Hout.
+  refine (ds_loop (S f) r1 (r2 :: rest) c bt row1 x more Hi Hk Hinc Hv Hx Hne _ rem out rem' _ _ Hout).
+  - rewrite map_length, !combine_length, Lh, Li, Lt. lia.
+  - intros k e He. destruct (Hall k e He) as [row2 [Bk [tail [Hh [Hin [Ht [Hi2 [Hk2 [Hinc2 [Hv2 [Hne2 [Hl2 [Hb2 Htail]]]]]]]]]]]]].
+    eexists. split.
+    + apply map_nth_error. instantiate (1 := (row2, (Bk, tail))).
+      clear - Hh Hin Ht. revert k inner tails Hh Hin Ht.
+      induction heads as [|h hs IH]; intros [|k] inner tails Hh Hin Ht; destruct inner as [|i0 is]; destruct tails as [|t0 ts];
+        cbn in *; try discriminate.
+      * inversion Hh; inversion Hin; inversion Ht; subst. reflexivity.
+      * exact (IH _ _ _ Hh Hin Ht).
+    + cbn [fst snd].
+      exact (ds_loop f r2 rest _ BFor row2 y more2 Hi2 Hk2 Hinc2 Hv2 Hy Hne2 Bk rem2 tail rem Hl2 Hb2 Htail).
+Qed.
+
+(* (f) a desugared sheet is a fixed point: nothing is left to unroll, at any depth, in any context *)
+Lemma ds_literal_segment seg tk : LitSem seg tk ->
+  forall k c bt g0 o rem,
+    (forall g, g0 <= g -> DS g k c bt false = ROk (o, rem)) ->
+    forall f, length seg + g0 <= f -> DS f (seg ++ k) c bt false = ROk (seg ++ o, rem).
+Proof.
+  induction 1 as [|id text rest t _ IH|id text body tb rest t _ IHb _ IHr]; intros k c bt g0 o rem Hk f Hf.
+  - apply Hk. cbn in Hf. lia.
+  - destruct f as [|f]; [cbn in Hf; lia|]. cbn [app ds]. rewrite instantiate_lit. cbn [i_kind i_inc negb orb i_id i_text].
+    rewrite end_of_block_plain. rewrite (IH k c bt g0 o rem Hk f); [reflexivity|cbn in Hf; lia].
+  - destruct f as [|f]; [cbn in Hf; lia|]. cbn [app ds]. rewrite instantiate_lit. cbn [i_kind i_inc negb orb i_id i_text].
+    rewrite end_of_block_block. rewrite <- app_assoc. cbn [app].
+    cbn [length] in Hf. rewrite app_length in Hf. cbn [length] in Hf.
+    rewrite (IHb (end_row :: rest ++ k) c BBlock 1 [] (rest ++ k)).
+    + rewrite (IHr k c bt g0 o rem Hk f) by lia. rewrite app_nil_r, <- app_assoc. reflexivity.
+    + intros g Hg. destruct g as [|g]; [lia|]. reflexivity.
+    + lia.
+Qed.
+
+Theorem ds_fixed_point seg tk c : LitSem seg tk -> desugar pol c seg = ROk seg.
+Proof.
+  intros H. unfold desugar.
+  rewrite <- (app_nil_r seg) at 2.
+  rewrite (ds_literal_segment seg tk H [] c BRoot 1 [] []).
+  - rewrite app_nil_r. reflexivity.
+  - intros g Hg. destruct g as [|g]; [lia|]. reflexivity.
+  - pose proof (sheet_fuel_enough seg). lia.
+Qed.
+
+End Laws.
+
+
+Lemma desugar_LitSem pol rows c rows' : desugar pol c rows = ROk rows' -> exists tk, LitSem rows' tk.
+Proof.
+  intros Hd. destruct (run_sheet pol rows c) as [s|e] eqn:H.
+  - rewrite run_sheet_repaired in H.
+    destruct (unroll_ok pol true rows _ _ _ _ _ H) as [out [evs [Hd' [_ [Hs _]]]]]. cbn [p_pos p_ctx skipn] in Hd'.
+    revert Hd. unfold desugar. rewrite Hd'. intros Hd. exists (rtoks evs). congruence.
+  - apply desugar_error_iff in H. congruence.
+Qed.
+
+Theorem desugar_idempotent pol rows c rows' c' :
+  desugar pol c rows = ROk rows' -> desugar pol c' rows' = ROk rows'.
+Proof.
+  intros Hd. destruct (desugar_LitSem _ _ _ _ Hd) as [tk Hs]. exact (ds_fixed_point pol _ _ c' Hs).
+Qed.
